@@ -4,7 +4,6 @@ bin/gen-manifest turns this into MANIFEST.json."""
 NOT_APPLICABLE = {
     "C18": "reachability of stored tree nodes from the current root over all histories is a property of runtime data, not of code shape",
     "C38": "soundness of analyser output against all executions on all ledger states is semantic",
-    "C42": "proportionality and per-epoch emission bounds are arithmetic over histories; the stake-sorted index is value-level",
     "C46": "semantic equivalence of two WASM programs (before/after instrumentation)",
     "C22": "agreement of typed codecs with generated schemas is a payload-level relation over every value; the only structural clause in reach (ValueKind of manual Categorize impls vs TypeKind of their Describe impls) could not be extracted reliably: type_data bodies build TypeKind through generic helper constructors and derive-expanded impls are indistinguishable from manual ones in MIR; withdrawn rather than weakened (DESIGN.md C22)",
 }
@@ -290,3 +289,11 @@ claim("C23", "exhaustive kind match + dominance of the accepting exit by a same-
       "the validation verdict table is Unchanged->valid, Strengthened->invalid, Incomparable->invalid, Weakened->allow_validation_weakening and "
       "an invalid change records an error; every SchemaComparisonErrorDetail variant is produced. That a reported equality/extension implies "
       "the payload-set relation (soundness proper) is semantic and not decided.", level="other")
+
+claim("C42", "guard dominance on the stake-index key, who-may-write table for the index, iterator-chain origin of the active set, ordering of ratio read vs pool change",
+      "Decides the membership/size/order clause and the ratio-ordering clause only: an index key exists only for registered validators with non-zero "
+      "stake; index entries are written only through index_update, which every stake mover and register_update calls with the new state; the next "
+      "active set is the stake-descending sort of the index scan truncated by take(config.max_validators); minted units are exactly "
+      "calculate_stake_unit_amount(...) computed before the XRD enters the vault and redeemed XRD exactly calculate_redemption_value(...) computed "
+      "before the units are burnt. Proportionality, 'never gains XRD', emission and reward bounds are arithmetic over histories and not decided.",
+      level="other")
